@@ -1,6 +1,6 @@
 """C04 — fair mutex grants in arrival order (structure: FairGate + FIFO ends + notified head stays linked)."""
 from rl import (entry_methods, loc_endswith, path_cond, trace_summary, where, const_of, fmt_val)
-from common import fifo_ends, own_node_roots
+from common import fifo_ends, own_node_roots, fair_no_requeue, mutex_fair_J, _own_entered
 from typestate import check_typestate
 
 STATE = 'sync::mutex::MutexState'
@@ -26,7 +26,9 @@ def run(C, R):
                      'R2 FIFO ends — waiters enter only with add_front and candidates are taken only from the tail '
                      '(peek_last*/remove_last), so the tail is the oldest; R3 the notified head of a fair mutex '
                      'stays linked until it locks or is dropped (typestate table, Notified linked iff fair), so it '
-                     'keeps gating R1.  Together with C01.I1: only the oldest pending waiter can be granted while '
+                     'keeps gating R1; R4 on a path that can be fair, the own node is enqueued only when it entered in state '
+                     'New (a queued waiter never re-enters behind later arrivals; a re-queue of the notified head on a '
+                     'locked fair mutex is excluded only while notification happens on unlocked paths only).  Together with C01.I1: only the oldest pending waiter can be granted while '
                      'waiters exist.  That LinkedList::remove keeps the relative order of the others is assumed '
                      '(C20).')
     R.trusted += ['rustc nightly MIR', 'queue-op summaries (C20)', 'lock_api::Mutex']
@@ -39,7 +41,18 @@ def run(C, R):
         R.configs.append(cfg)
         nset = 0
         nq = 0
-        for m in entry_methods(F, CG, STATE):
+        nins = 0
+        ems = entry_methods(F, CG, STATE)
+        _nJ, _goodJ, badJ = mutex_fair_J(E, F, ems, E.run)
+
+        def excluded(path, root, badJ=badJ):
+            # J: fair & Notified => unlocked.  A path on which the own node enters Notified with the mutex locked is
+            # infeasible when J is inductive (notification half evaluated here, grant half = R1)
+            if path.facts.get(('discr', ('init', root + ('data', 'state')))) == ('eq', 'Notified') and \
+                    const_of(E, path.facts, ('init', (('P', 'self'), 'is_locked'))) == 1 and not badJ:
+                return 'fair & Notified => unlocked (notification only on unlocked paths)'
+            return None
+        for m in ems:
             paths = E.run(m['path'])
             R.add_paths(m['path'], len(paths))
             owns = own_node_roots(F, m)
@@ -60,7 +73,9 @@ def run(C, R):
                                '%s takes the lock on a path that can be a fair mutex with other waiters queued and '
                                'an own node that is not the notified head [%s]' % (m['path'], path_cond(E, path)),
                                where(F, w), {'trace': trace_summary(path)})
+            nins += fair_no_requeue(R, E, F, m, paths, owns, 'C04.R4', 'mutex', excluded)
             nq += fifo_ends(R, E, F, m, paths, 'C04.R2')
             check_typestate(R, E, F, roles, STATE, m, paths, 'C04.R3')
         R.floor('C04.R1 lock-set-paths[%s]' % cfg, nset, 3)
         R.floor('C04.R2 queue-op-kinds[%s]' % cfg, nq, 4)
+        R.floor('C04.R4 enqueue-paths[%s]' % cfg, nins, 1)
